@@ -736,6 +736,24 @@ class EbuildProcessor:
         # which isn't always true.
         self.pid = None
 
+    @staticmethod
+    def _quote_env_value(val):
+        """Quote a string so that bash reads back exactly that string."""
+        if val.isalnum():
+            return val
+        if "'" not in val:
+            return f"'{val}'"
+        # inside $'...' a backslash is an escape character as well
+        escaped = val.replace("\\", "\\\\").replace("'", "\\'")
+        return f"$'{escaped}'"
+
+    @staticmethod
+    def _escape_dquoted(val):
+        """Escape a string for use between double quotes in bash."""
+        for char in ("\\", '"', "$", "`"):
+            val = val.replace(char, "\\" + char)
+        return val
+
     def _generate_env_str(self, env_dict):
         env_dict = dict(env_dict)
         # EAPI 9+ marks variables that must be set but not exported (see PMS);
@@ -757,13 +775,9 @@ class EbuildProcessor:
                 )
 
             if isinstance(val, (list, tuple)):
-                assign = f"{key}=({' '.join(f'[{i}]="{value}"' for i, value in enumerate(val))})"
-            elif val.isalnum():
-                assign = f"{key}={val}"
-            elif "'" not in val:
-                assign = f"{key}='{val}'"
+                assign = f"{key}=({' '.join(f'[{i}]="{self._escape_dquoted(value)}"' for i, value in enumerate(val))})"
             else:
-                assign = f"{key}=$'{val.replace("'", "\\'")}'"
+                assign = f"{key}={self._quote_env_value(val)}"
 
             (plain if key in nonexported else exported).append(assign)
 
